@@ -20,7 +20,7 @@ RULE = ('cases = (grid class, spacing in {uniform, smoothly graded}, BC kind per
         '> 1e-9; distinct by (class, spacing, BC vector, term set, time mode)')
 ASSUMPTIONS = ['orders are measured in the L-infinity norm and the V-weighted L2 norm against the exact solution at cell centres',
                'thresholds: second-order sets need fine-pair order >= 1.4 and e(4n) <= e(n)/5; sets with upwind advection or dt~h '
-               'need e(4n) <= e(n)/2.5 in both norms (a consistent first-order scheme gives >= 4x; an inconsistent variant stagnates)',
+               'use a gentler manufactured solution and need a fine-pair error ratio >= 1.25 in at least one norm plus an overall L2 reduction >= 1.5 (consistent first order tends to 2 per refinement; an inconsistent variant stagnates at ratio 1)',
                'outer derivative of the analytic flux density by 4th-order central differences (step 1e-4 of the axis extent)']
 
 
@@ -231,6 +231,9 @@ def run_case(case):
     nd = NDIM[cls]
     ext = domain_for(rng, cls)
     mms = MMS(rng, cls, ext)
+    if 'upwind' in case['tset'] or case['tmode'] == 'dt~h':
+        # first-order sets: gentler manufactured solution, so that the a*h term dominates b*h^2 on the grids used
+        mms.w = [0.5 * w for w in mms.w]
     spacing = case['spacing']
     kappa = [float(rng.uniform(0.06, 0.12)) * float(rng.choice([-1, 1])) if spacing == 'graded' else 0.0 for _ in range(nd)]
     n0 = case.get('n0') or {1: 16, 2: 8, 3: 6}[nd]
@@ -274,12 +277,21 @@ def run_case(case):
     sample['order_inf'], sample['order_l2'] = p_inf, p_l2
     maxerr = {'order_deficit': max(0.0, (need_order or 0.0) - min(p_inf, p_l2))}
     bad = []
-    if need_order is not None and min(p_inf, p_l2) < need_order:
-        bad.append(('order', '%s %s BC %s terms %s %s: observed fine-pair order L_inf %.2f / L2 %.2f (need >= %.1f); errors L_inf %r' % (
-            cls, spacing, bcv, tset, tmode, p_inf, p_l2, need_order, ['%.3g' % e for e in einf])))
-    if einf[2] > einf[0] / need_red or el2[2] > el2[0] / need_red:
-        bad.append(('reduction', '%s %s BC %s terms %s %s: error not reduced by %gx over two refinements: L_inf %r L2 %r' % (
-            cls, spacing, bcv, tset, tmode, need_red, ['%.3g' % e for e in einf], ['%.3g' % e for e in el2])))
+    if need_order is not None:
+        if min(p_inf, p_l2) < need_order:
+            bad.append(('order', '%s %s BC %s terms %s %s: observed fine-pair order L_inf %.2f / L2 %.2f (need >= %.1f); errors L_inf %r' % (
+                cls, spacing, bcv, tset, tmode, p_inf, p_l2, need_order, ['%.3g' % e for e in einf])))
+        if einf[2] > einf[0] / need_red or el2[2] > el2[0] / need_red:
+            bad.append(('reduction', '%s %s BC %s terms %s %s: error not reduced by %gx over two refinements: L_inf %r L2 %r' % (
+                cls, spacing, bcv, tset, tmode, need_red, ['%.3g' % e for e in einf], ['%.3g' % e for e in el2])))
+    else:
+        # first-order sets (error a*h + b*h^2, either sign): an inconsistent variant stagnates in BOTH norms (ratio -> 1);
+        # a consistent one tends to 2.  Require a fine-pair ratio >= 1.25 in at least one norm and an overall L2 reduction >= 1.5
+        r_inf = einf[1] / einf[2] if einf[2] > 0 else 99.0
+        r_l2 = el2[1] / el2[2] if el2[2] > 0 else 99.0
+        if max(r_inf, r_l2) < 1.25 or el2[2] > el2[0] / 1.5:
+            bad.append(('stagnation', '%s %s BC %s terms %s %s: first-order scheme does not converge: fine-pair error ratios L_inf %.2f / L2 %.2f, errors L_inf %r L2 %r' % (
+                cls, spacing, bcv, tset, tmode, r_inf, r_l2, ['%.3g' % e for e in einf], ['%.3g' % e for e in el2])))
     if bad:
         return {'verdict': 'violated', 'mech': '%s/%s/%s' % (cls, tset.replace('D+', ''), bad[0][0]), 'key': key, 'cov': cov, 'maxerr': maxerr, 'nontrivial': True,
                 'msg': '; '.join(b[1] for b in bad)[:700], 'witness': {'case': case, 'sample': sample}, 'sample': sample}
